@@ -43,6 +43,7 @@ def run(ctx):
     # focused families: overload / default-argument dispatch; classes
     callcheck.run_engine(ctx, "fortran", [None, {"F_CFI": True}], 12 if quick else 200, ["c++"], with_overloads=True, nfunc=(1, 2), with_class=False)
     callcheck.run_engine(ctx, "fortran", [None], 10 if quick else 150, ["c++"], with_class=True, with_overloads=False, nfunc=(0, 2))
+    callcheck.run_template_family(ctx, "fortran", 3 if quick else 40, [None, {"F_CFI": True}])
     names = upstream.target_lists()["fortran"]
     jobs = [(n, None) for n in names]
     if not quick:
